@@ -107,7 +107,7 @@ private def tD : Task := { tX with dir := some 0, sources := [] }
 private def prX : Proj := { base := [(0, [97])], dirOf := [], dirLen := [], tasks := [tX] }
 private def prD : Proj := { base := [], dirOf := [], dirLen := [(0, 2)], tasks := [tD] }
 private def s1 : State := { State.empty with files := [(0, ⟨[1], 5⟩)] }
-private def env (n : Nat) : Env := ⟨n, false, none, none, false, true⟩
+private def env (n : Nat) : Env := ⟨n, false, none, none, false, true, false⟩
 
 /-- defect 6 (F7): `--list --json` with non-dry checkers writes a checksum, and the next
 normal run skips a task that never ran. -/
@@ -125,7 +125,7 @@ private def tC : Task := { tX with cmds := [⟨[], none, false⟩, ⟨[], some 1
 private def prC : Proj := { prX with base := [(0, [97]), (1, [98])], tasks := [tC] }
 private def sC : State :=   -- after a successful run with file 1 present: file 1 removed, source edited
   applyOp prC (.write 0 [2] 7) (applyOp prC (.delete 1)
-    (invoke Cfg.fixed hId prC 0 .run ⟨10, true, none, none, false, true⟩ { State.empty with files := [(0, ⟨[1], 5⟩), (1, ⟨[], 5⟩)] }).1)
+    (invoke Cfg.fixed hId prC 0 .run ⟨10, true, none, none, false, true, false⟩ { State.empty with files := [(0, ⟨[1], 5⟩), (1, ⟨[], 5⟩)] }).1)
 
 /-- (TS4) the rule before the fix, in isolation (`dryOnError := true`, the other two as repaired): the
 task ran once (checksum stored), the precondition's file is removed and a source edited; `--dry`
@@ -153,14 +153,14 @@ example : (invoke Cfg.fixed hId prX 0 .listJson (env 10) s1).1 = s1 ∧
 private def tT : Task := { tX with method := .timestamp }
 private def prT : Proj := { prX with tasks := [tT] }
 private def s3 : State := { s1 with marks := [(tsKey tT, 3)] }
-private def envF (n : Nat) : Env := ⟨n, true, some 0, none, false, true⟩
+private def envF (n : Nat) : Env := ⟨n, true, some 0, none, false, true, false⟩
 
 /-- non-vacuity for the marker: a normal run CREATES it (no marker), TOUCHES it (stale marker) and —
 when the command fails — REMOVES it; `--dry` (also with the failing command), `--status`,
 `--list --json`, `--list`, `--summary` leave it exactly as it was -/
 example :
     (invoke Cfg.fixed hId prT 0 .run (env 10) s1).1.marks = [(tsKey tT, 10)] ∧
-    (invoke Cfg.fixed hId prT 0 .run ⟨10, true, none, none, false, true⟩ s3).1.marks = [(tsKey tT, 10)] ∧
+    (invoke Cfg.fixed hId prT 0 .run ⟨10, true, none, none, false, true, false⟩ s3).1.marks = [(tsKey tT, 10)] ∧
     (invoke Cfg.fixed hId prT 0 .run (envF 10) s3).1.marks = [] ∧
     (invoke Cfg.fixed hId prT 0 .dry (env 10) s1).1 = s1 ∧
     (invoke Cfg.fixed hId prT 0 .dry (envF 10) s3).1 = s3 ∧ (invoke Cfg.fixed hId prT 0 .dry (envF 10) s3).2.ran = [] ∧
